@@ -37,6 +37,7 @@ type FuncSpec struct {
 	Serves    []string
 	Requires  []*Clause
 	Ensures   []*Clause
+	Promises  []*Clause // assumed at call sites, not proved (listed as trusted)
 	Writes    []*Clause
 	HasWrites bool
 	Pure      bool
@@ -451,7 +452,7 @@ func (c *Contracts) Load(path string, defaultPkg string) error {
 					}
 				}
 				cur.Loops[n] = curLoop
-			case "requires", "ensures", "invariant", "assert", "assume", "panics":
+			case "requires", "ensures", "promises", "invariant", "assert", "assume", "panics":
 				props, r2 := takeBracketProps(ln[len(word):])
 				name := ""
 				if word == "assert" || word == "assume" {
@@ -470,6 +471,8 @@ func (c *Contracts) Load(path string, defaultPkg string) error {
 					cur.Requires = append(cur.Requires, cl)
 				case "ensures":
 					cur.Ensures = append(cur.Ensures, cl)
+				case "promises":
+					cur.Promises = append(cur.Promises, cl)
 				case "invariant":
 					if curLoop == nil {
 						return fail(fmt.Errorf("invariant outside loop"))
